@@ -243,8 +243,6 @@ def check_layout(d, vel, l1, l2):
     if det != {"position": (w, d), "velocities": vel}:
         bad.append(ob(f"{PROP}/GroFile.determine_format/ensures.inverts_the_writer_format/{sid}", "refuted", engine="symrun", backend="native-str",
                       reason=f"determine_format gives {det}, written with {(w, d)}, velocities={vel}", cex=dict(cex0, signature="determine_format")))
-    if line0 is not None and len(line0) != 20 + 3 * 8 * (1 + int(vel)):
-        bad.append(ob(f"{tag}/ensures.default_format_is_8_3/{sid}", "refuted", engine="symrun", backend="native-str", cex=dict(cex0, signature="default")))
     if bad:
         return bad
     return [ob(f"{tag}/ensures.record_layout_roundtrip/{sid}", "discharged", engine="symrun", backend="z3+native-str",
